@@ -1809,6 +1809,9 @@ impl<'a, 'b, W: Write> SerializeSeq for SeqSer<'a, 'b, W> {
                 if !self.ser.at_line_start {
                     self.ser.newline()?;
                 }
+                // The first dash now starts a line of its own and is indented like the following
+                // ones; an inline hint staged for the value of a complex key (`: a: 1`) is void.
+                self.ser.pending_inline_map = false;
             }
             // If previous element was an inline map after a dash, just clear the flag; do not change depth.
             if !self.first && self.ser.inline_map_after_dash {
